@@ -139,4 +139,12 @@ class ProcH(_Proc):
         LOG.append(('proc_on_add', self, a))
 
 
-PROCESSOR_TYPES = ['ProcA', 'ProcB', 'ProcC', 'ProcH']
+class ProcSub(ProcA):
+    """a processor type derived from another listed type (a world may hold one processor of each exact type)"""
+
+
+class ProcSubSub(ProcSub):
+    pass
+
+
+PROCESSOR_TYPES = ['ProcA', 'ProcB', 'ProcC', 'ProcH', 'ProcSub', 'ProcSubSub']
